@@ -275,6 +275,16 @@ def check_config(acc, h, cfg, layer):
         acc.violation('C03:sibling-raised:%s' % type(res.raised).__name__, 'request to the sibling route raised %r' % (res.raised,), case)
     elif got != want:
         acc.violation('C03:sibling-trace', 'a plain route bound after the main route ran %r, expected %r' % (got, want), case)
+    # a request no route accepts is answered by the built-in catch-all route, which runs the application-level
+    # middlewares exactly like a plain route does (its own endpoint is not instrumented)
+    res, trace = chain.run_request(h, '/zz/unknown', 'GET')
+    acc.transitions += 1
+    got = skeleton(trace)
+    want = [tuple(e) for e in O.simulate(cfg, catchall=True)['trace'] if e[1] != 'sib']
+    if res.raised is not None:
+        acc.violation('C03:catchall-raised:%s' % type(res.raised).__name__, 'request to an unknown path raised %r' % (res.raised,), case)
+    elif got != want:
+        acc.violation('C03:catchall-trace', 'the catch-all route ran %r, expected %r' % (got, want), case)
 
 
 def nshards(tier):
